@@ -175,6 +175,10 @@ func (Engine) Generate(r *simcore.RNG, tier string, idx int) *simcore.Plan {
 		st := simcore.Step{Op: "cbal", A: []int64{r.Range(0, 4), int64(r.Intn(len(spreadFactors))), 0, n}}
 		if r.Chance(0.03) {
 			st.A[2] = 1
+		} else if r.Chance(0.14) {
+			// liquidity-bootstrapping pool: weights move smoothly to other target weights
+			// (another total) over 2-60 s starting 0-9 s from now
+			st.A[2] = 2 + r.Range(0, 9)*100 + r.Range(2, 60)*10000
 		}
 		for i := int64(0); i < n; i++ {
 			m, e := reserve()
@@ -737,6 +741,7 @@ type built struct {
 	stabCreator int
 	adjsf       []uint64
 	refuse      bool
+	lbp         bool
 }
 
 func (w *world) build(st simcore.Step) *built {
@@ -771,9 +776,19 @@ func (w *world) build(st simcore.Step) *built {
 		if st.Arg(2) == 1 {
 			exit = osmomath.MustNewDecFromStr("0.01")
 		}
-		params := balancer.NewPoolParams(osmomath.MustNewDecFromStr(spreadFactors[int(st.Arg(1))%len(spreadFactors)]), exit, nil)
+		var smooth *balancer.SmoothWeightChangeParams
+		lbp := ""
+		if k := st.Arg(2); k%100 == 2 {
+			smooth = &balancer.SmoothWeightChangeParams{StartTime: n.Time.Add(time.Duration(k/100%100) * time.Second), Duration: time.Duration(k/10000%100+1) * time.Second}
+			for j, pa := range assets {
+				tw := 1 + (pa.Weight.Int64()*7+int64(j)*13)%1000
+				smooth.TargetPoolWeights = append(smooth.TargetPoolWeights, balancer.PoolAsset{Token: sdk.NewCoin(pa.Token.Denom, osmomath.ZeroInt()), Weight: osmomath.NewInt(tw)})
+			}
+			lbp = fmt.Sprintf(" lbp start=+%ds dur=%s", k/100%100, smooth.Duration)
+		}
+		params := balancer.NewPoolParams(osmomath.MustNewDecFromStr(spreadFactors[int(st.Arg(1))%len(spreadFactors)]), exit, smooth)
 		m := balancer.NewMsgCreateBalancerPool(n.Accts[a], params, assets, "")
-		return &built{msg: &m, kind: "create", sender: a, create: true, note: fmt.Sprintf("n=%d", len(assets))}
+		return &built{msg: &m, kind: "create", sender: a, create: true, lbp: smooth != nil, note: fmt.Sprintf("n=%d%s", len(assets), lbp)}
 	case "cstab":
 		a := w.actor(st.Arg(0))
 		cnt := int(st.Arg(3))
@@ -1173,6 +1188,9 @@ func (w *world) deliver(i int, st simcore.Step, b *built) bool {
 			}
 			if pi.stable {
 				run.Probe("stableswap-pool-created")
+			}
+			if b.lbp {
+				run.Probe("smooth-weight-change-pool-created")
 			}
 		}
 		if b.adjsf != nil {
